@@ -919,7 +919,9 @@ pub fn check_cmd(id: &str, tier: &str, seed: u64) -> i32 {
         "wall_s": wall,
         "violations": n_viol,
     });
-    let evdir = verif_root().join("evidence");
+    // VERIF_EVIDENCE_DIR: scratch location for runs against a deliberately changed tree (seeded changes,
+    // mutants), so that /verif/evidence always describes the tree as it is
+    let evdir = std::env::var("VERIF_EVIDENCE_DIR").map(std::path::PathBuf::from).unwrap_or_else(|_| verif_root().join("evidence"));
     let _ = std::fs::create_dir_all(&evdir);
     let evpath = evdir.join(format!("{}.json", def.id));
     if let Err(e) = std::fs::write(&evpath, serde_json::to_string_pretty(&ev).unwrap()) {
